@@ -20,7 +20,10 @@ EXPLANATION = (
     "the result is base.subs(ordered {target_k -> requested_k, contracted -> index generated for THIS call, same (space, "
     "spin), pairwise different}) wrapped with the requested indices as targets; fully_expand reaches the definition; spin "
     "indices, surplus generated indices and substitutions that annihilate a non-zero definition are refused on exactly those "
-    "paths; two consecutive expansions use disjoint contracted indices (functions behind caching decorators are evaluated "
+    "paths; the same holds when the definition's own default indices are requested (wholly, partly, permuted): the summation "
+    "indices are replaced all the same; two consecutive expansions (other names / default indices / one then the other, "
+    "fully_expand True, False, symbolic) carry freshly generated, mutually disjoint contracted indices, never the "
+    "definition's own summation symbols (functions behind caching decorators are evaluated "
     "once per argument tuple); validate_indices as a decision table (accepted iff same length and position-wise same "
     "space, order kept). R11b: value conservation of the factorisation. t2_1.factor_itmd on concrete terms (integral "
     "exponents, bracket exponents, matching/non-matching brackets): integral, bracket and amplitude are exchanged equally "
@@ -242,8 +245,8 @@ def _check_expansion(ctx, rule, fn, what, sub, src_call, targets, requested, con
     """the substitution of one expansion: targets by position, every contracted index onto its own fresh index."""
     base, d, ordered = sub
     d = {nm(k): nm(v) for k, v in d.items()}
-    want_t = {t: r for t, r in zip(targets or (), requested)}
-    got_t = {k: v for k, v in d.items() if k in (targets or ())}
+    want_t = {t: r for t, r in zip(targets or (), requested) if t != r}
+    got_t = {k: v for k, v in d.items() if k in (targets or ()) and k != v}      # identity entries carry no information
     ctx.check(rule, fn, got_t == want_t and (targets is None or len(targets) == len(requested)),
               f"{what}: base targets -> requested indices by position",
               f"{what}: the target indices of the definition are mapped {got_t}, expected {want_t}", key=f"target map {key}")
@@ -275,7 +278,6 @@ def r11a(ctx):
     rule = "R11a"
     fn = ctx.model.fn(IT + "expand_itmd")
     tnames, cn = ("i", "j", "a", "b"), (("k", ("occ", "")), ("c", ("virt", "")), ("l", ("occ", "")))
-    req = ("m", "n", "e", "f")
     state = {}
 
     def scenario(targets, contracted, requested, return_sympy, spin_at=None):
@@ -294,8 +296,14 @@ def r11a(ctx):
         sx = _expand_sx(ctx, src, build, what)
         return sx.run(fn, args)
 
-    for targets, contracted, rs, tag in ((tnames, cn, False, "full"), (tnames, cn, True, "sympy"), (tnames, None, True, "no contraction"),
-                                         (tnames, (("k", ("occ", "")), ("c", ("virt", "b")), ("d", ("virt", ""))), True, "spin")):
+    for targets, contracted, rs, tag, req in (
+            (tnames, cn, False, "full", ("m", "n", "e", "f")), (tnames, cn, True, "sympy", ("m", "n", "e", "f")),
+            (tnames, None, True, "no contraction", ("m", "n", "e", "f")),
+            (tnames, (("k", ("occ", "")), ("c", ("virt", "b")), ("d", ("virt", ""))), True, "spin", ("m", "n", "e", "f")),
+            # the request with the definition's own (default) target indices: the summation indices still have to be replaced
+            (tnames, cn, True, "default indices", tnames), (tnames, cn, False, "default indices, wrapped", tnames),
+            (tnames, cn, True, "partly default indices", ("i", "n", "a", "f")), (tnames, cn, True, "permuted default indices", ("j", "i", "b", "a")),
+            (tnames, None, True, "default indices, no contraction", tnames)):
         src = IndexSource()
         build, args = scenario(targets, contracted, req, rs)
         outs = run(src, build, args, f"expand_itmd[{tag}]")
@@ -346,6 +354,7 @@ def r11a(ctx):
                   f"expand_itmd[{tag}]: _build_expanded_itmd is called with {lv}; fully_expand is not forwarded to the definition",
                   key=f"level {tag}")
     # refusals
+    req = ("m", "n", "e", "f")
     src = IndexSource()
     build, args = scenario(tnames, cn, req, True, spin_at=2)
     outs = run(src, build, args, "expand_itmd[spin index]")
@@ -361,34 +370,53 @@ def r11a(ctx):
 
 
 def _r11a_twice(ctx):
-    """two expansions in one run: the contracted indices of the second are generated anew (nothing between the request and the
-    generator may be cached)"""
+    """two expansions in one run (call history): whatever indices are requested - other names, the definition's own default
+    indices, first one then the other - and whatever the expansion level, each result carries its own contracted indices,
+    generated for that call: not the summation symbols of the definition, not those of the other expansion"""
     rule = "R11a"
     fn = ctx.model.fn(IT + "expand_itmd")
     cn = (("k", ("occ", "")), ("c", ("virt", "")))
-    src = IndexSource()
+    own = {c for c, _ in cn}
 
-    def build(sx, a, kw):
-        return Obj(None, "base", expr=sym("BASE"), target=tuple(mk_index(t) for t in "ijab"),
-                   contracted=tuple(mk_index(c, s[0], s[1]) for c, s in cn))
-    sx = _expand_sx(ctx, src, build, "expand_itmd twice")
-    drv = ast.parse("r1 = self.expand_itmd(indices=I1, return_sympy=True, fully_expand=LEVEL)\n"
-                    "r2 = self.expand_itmd(indices=I2, return_sympy=True, fully_expand=LEVEL)\n").body
-    outs = sx.run_block(fn, drv, lambda: dict(self=Obj("intermediates:t2_2", "self", _default_idx=tuple("ijab")), LEVEL=sym("LEVEL"),
-                                              I1=tuple(mk_index(x) for x in "mnef"), I2=tuple(mk_index(x) for x in "mnef")))
-    done = [o for o in outs if o.kind == "fall"]
-    ctx.check(rule, fn, len(done) >= 1, "two consecutive expansions complete", f"two consecutive expansions: {outs[:3]}", key="twice returns")
-    for n_o, o in enumerate(done):
-        s1, s2 = _subs_of(o.env["r1"]), _subs_of(o.env["r2"])
-        if s1 is None or s2 is None:
-            ctx.bad(rule, fn, "two expansions: result is not the substituted definition", key=f"twice shape {n_o}")
-            continue
-        i1 = {nm(v) for k, v in s1[1].items() if nm(k) in ("k", "c")}
-        i2 = {nm(v) for k, v in s2[1].items() if nm(k) in ("k", "c")}
-        ctx.check(rule, fn, not (i1 & i2) and len(i1) == 2 and len(i2) == 2,
-                  "two expansions of one intermediate use disjoint contracted indices",
-                  f"two expansions of the same intermediate share the contracted indices {sorted(i1 & i2)} (generated once and "
-                  "re-used): in a product of two such factors an index occurs four times", key=f"twice {n_o}")
+    def images(v):
+        """contracted indices of one expansion result (an unsubstituted definition keeps its own)"""
+        sub = _subs_of(v)
+        if sub is not None:
+            return {nm(sub[1].get(mk_index(c).term, mk_index(c).term)) for c in own}, sub[0]
+        return (set(own), v) if v == sym("BASE") else (None, v)
+    for first, second in (("mnef", "mnef"), ("ijab", "ijab"), ("ijab", "mnef"), ("mnef", "ijab"), ("ijab", "jiba")):
+        for level in (sym("LEVEL"), True, False):
+            src = IndexSource()
+
+            def build(sx, a, kw):
+                return Obj(None, "base", expr=sym("BASE"), target=tuple(mk_index(t) for t in "ijab"),
+                           contracted=tuple(mk_index(c, s[0], s[1]) for c, s in cn))
+            sx = _expand_sx(ctx, src, build, "expand_itmd twice")
+            drv = ast.parse("r1 = self.expand_itmd(indices=I1, return_sympy=True, fully_expand=LEVEL)\n"
+                            "r2 = self.expand_itmd(indices=I2, return_sympy=True, fully_expand=LEVEL)\n").body
+            outs = sx.run_block(fn, drv, lambda: dict(self=Obj("intermediates:t2_2", "self", _default_idx=tuple("ijab")), LEVEL=level,
+                                                      I1=tuple(mk_index(x) for x in first), I2=tuple(mk_index(x) for x in second)))
+            done = [o for o in outs if o.kind == "fall"]
+            tag = f"{first} then {second}, fully_expand={show(level) if isinstance(level, T) else level}"
+            ctx.check(rule, fn, len(done) >= 1, f"two consecutive expansions complete [{tag}]", f"two consecutive expansions [{tag}]: {outs[:3]}",
+                      key=f"twice returns {tag}")
+            for n_o, o in enumerate(done):
+                (i1, b1), (i2, b2) = images(o.env["r1"]), images(o.env["r2"])
+                if i1 is None or i2 is None or b1 != sym("BASE") or b2 != sym("BASE"):
+                    ctx.bad(rule, fn, f"two expansions [{tag}]: result is not the (substituted) definition: {show(o.env['r1'])[:120]} / "
+                            f"{show(o.env['r2'])[:120]}", key=f"twice shape {tag} {n_o}")
+                    continue
+                why = None
+                if (i1 | i2) & own:
+                    why = (f"the summation indices {sorted((i1 | i2) & own)} of the definition leak into the result (request {first} / {second}): "
+                           "in a product with another expansion or with any tensor that carries these names an index occurs more than twice")
+                elif i1 & i2:
+                    why = (f"two expansions of the same intermediate share the contracted indices {sorted(i1 & i2)} (generated once and "
+                           "re-used): in a product of two such factors an index occurs four times")
+                elif len(i1) != len(own) or len(i2) != len(own) or not all(str(x).startswith("<gen") for x in i1 | i2):
+                    why = f"contracted indices {sorted(map(str, i1))} / {sorted(map(str, i2))} are not one generated index per summation index"
+                ctx.check(rule, fn, why is None, f"two expansions [{tag}] use disjoint, freshly generated contracted indices",
+                          f"two expansions [{tag}]: {why}", key=f"twice {tag} {n_o}")
 
 
 def _r11a_validate(ctx):
